@@ -263,6 +263,27 @@ def main():
         h.create_bid("buyer", [(funds if f is None else CAP - 1 + f[0], "q")], B1, f, "1", "q", qs, size)
     h.create_ask("seller", [(CAP, "base")], A1, "base", "q", "1", CAP).create_ask("seller", [(CAP - 1, "base")], A2, "base", "q", "1", CAP - 1) \
         .rev("cancel_ask", "seller", A1, probe=True).write()
+    H("c03_fee_coin_without_fee_config", "bids carrying a fee coin matched while no bid fee is configured").env().inst() \
+        .create_bid("buyer", [(10, "q")], B1, (0, "q"), "2", "q", 10, 5).create_ask("seller", [(5, "base")], A1, "base", "q", "2", 5) \
+        .match("exec", A1, B1, "2", 2).match("exec", A1, B1, "2", 3).write()
+    h = H("c03_fee_cleared_by_migration", "a fee-bearing bid rests while a migration clears the bid fee; small and large fills migration").env()
+    h.lines += ["SEEDCFG ats ~ base cv q appr exec - feeb=0.01 [] [] 0 1", "SEEDVER ats_smart_contract 0.19.1",
+                "SEEDBID3 %s %s buyer base 1000 0 q 1000 0 10:q 0 1" % (enc(B1), enc(B1)),
+                "SEEDASK %s %s seller basic base q 1 1000" % (enc(A1), enc(A1))]
+    h.migrate(bfr="", bfa="").query("get_contract_info").match("exec", A1, B1, "1", 40).match("exec", A1, B1, "1", 460) \
+        .exits(owner_a="seller", owner_b="buyer").write()
+    H("c12_lists_with_repetitions", "approver and executor lists that repeat a kept entry in place of a dropped one").env() \
+        .inst(approvers=("appr", "appr2"), executors=("exec", "exec2")) \
+        .create_bid("buyer", [(10, "q")], B1, None, "2", "q", 10, 5) \
+        .modify("exec", approvers=["appr", "appr"]).modify("exec", approvers=["appr", "appr2", "appr"]) \
+        .modify("exec", approvers=["appr2", "appr2", "appr2"]).modify("exec", executors=["exec", "exec"]) \
+        .rev("expire_bid", "exec2", B1, probe=True).query("get_contract_info").write()
+    H("c07_fee_in_another_denomination", "a bid fee named in another traded quote, the base or an unknown denomination").env(markers={"q2": "R"}) \
+        .inst(quotes=("q", "q2"), bfr="0.1", bfa="feeb") \
+        .create_bid("buyer", [(1100, "q")], B1, (100, "q2"), "1", "q", 1000, 1000).create_bid("buyer", [(1100, "q")], B1, (100, "base"), "1", "q", 1000, 1000) \
+        .create_bid("buyer", [], B1, (100, "q"), "1", "q2", 1000, 1000).create_bid("buyer", [], B2, (100, "q2"), "1", "q2", 1000, 1000) \
+        .create_bid("buyer", [(1100, "q")], B1, (100, "q"), "1", "q", 1000, 1000) \
+        .create_ask("seller", [(1000, "base")], A1, "base", "q2", "1", 1000).match("exec", A1, B2, "1", 500).write()
     # known numeric classes (recorded findings): witnesses live in corpus/known/
     H("k_inexact_match", "K_inexact: precision 18, increment 1e18, price 0.999999999999999999, size 1e18+1").env() \
         .inst(precision=18, increment=10 ** 18) \
